@@ -127,6 +127,9 @@ func(_aes_cbc_enc_256_x4)
 	FUNC_SAVE
 
 	mov	IDX, 0
+	test	LEN, LEN		; nothing to do for a zero length
+	jz	done
+
 
 	FILL_KEY_CACHE	 CKEY_CNT, FIRST_CKEY, KEYS, MOVDQ
 	CBC_ENC_INIT	 FIRST_XDATA, TMP, MOVDQ, PXOR, IV, IN, IDX
